@@ -159,6 +159,7 @@ async def run_decode(ctx) -> None:
     from ramses_rf import Gateway
 
     seen4: list[tuple] = []
+    n_exc4 = len(ctx.loop_excs)
 
     def handler4(msg):
         seen4.append((msg, jdump(ctx, msg.payload, str(msg._pkt)), str(msg._pkt)))
@@ -166,7 +167,8 @@ async def run_decode(ctx) -> None:
     rows = []
     t4 = _dt.datetime(2023, 11, 6, 8)
     for i in order3:
-        reps = 2 if (isinstance(json.loads(base[i]), list) and lines[i][4:6].strip() == "I") else 1
+        reps = 2 if (lines[i][4:6].strip() == "I" and (isinstance(json.loads(base[i]), list) or " 000A " in lines[i][:50]
+                                                       or " 22C9 " in lines[i][:50])) else 1
         for _ in range(reps):
             t4 += _dt.timedelta(seconds=0.4)
             rows.append(f"{t4.isoformat(timespec='microseconds')} {lines[i]}")
@@ -186,6 +188,12 @@ async def run_decode(ctx) -> None:
                             f"{str(j_then)[:300]}; the same message now reads {str(j_now)[:300]}")
                 break
         ctx.probe("gateway_pass_messages", len(seen4))
+        # C01: nothing escapes the receive path -- the gateway's own message handler (array-fragment merging, dispatch) included;
+        # what devices' handlers, run later from the loop, make of the packets is C13's subject and is not judged here
+        for e in ctx.loop_excs[n_exc4:]:
+            if "pkt_received" in e["message"] or "_msg_received" in e["message"] or "_msg_handler" in e["message"]:  # the receive chain
+                ctx.violate("C01", "loop_exc", e["sig"], f"whole-gateway replay: unhandled in the loop: {e['type']}: {e['text']}")
+                break
         try:
             await gw4.stop()
         except Exception:  # noqa
